@@ -33,9 +33,11 @@ def UsersOk (h : History) : Prop := ∀ em ∈ h, em.2.userOk
 settlements (`settle1`, x/auction `CloseDutchAuction`) are allowed: they keep every equation exact -/
 def NoSettle (h : History) : Prop := ∀ em ∈ h, em.2.notSettle
 
-/-- the history contains no emergency redemption of a STABLE-MINT vault (`esmStable`, x/esm — finding D29: the record stays
-behind); every other emergency-shutdown step (`esmVault`, `esmCollector`, `esmBurn`) is allowed -/
-def NoEsmStable (h : History) : Prop := ∀ em ∈ h, em.2.notEsmStable
+/-- the history contains neither an emergency redemption of a STABLE-MINT vault (`esmStable`, x/esm — finding D29: the record
+stays behind) nor a first-generation wind-down that re-creates a vault (`esmReturn1`: keeps every ledger equation —
+`wind_down_return_keeps_ledger` — but the re-created vault may lie below the debt floor); every other emergency-shutdown
+step (`esmVault`, `esmCollector`, `esmBurn`, and the wind-down with the principal recovered = `settle1`) is allowed -/
+def EsmRegular (h : History) : Prop := ∀ em ∈ h, em.2.esmRegular
 
 /-- offsets that only auction settlements can produce: custody, count and collateral totals stay exact; the minted
 total and the supply can only fall BELOW the recorded principal -/
@@ -56,7 +58,7 @@ theorem init_inv (cfg : Nat → Option Product) (hc : CfgOk cfg) : Inv cfg State
 
 /-- one message: the invariant is kept relative to offsets that stay good; only a settlement changes them -/
 theorem apply_invG (cfg : Nat → Option Product) (hc : CfgOk cfg) (G : Gaps) (s : State) (e : Env) (m : Msg)
-    (hm : m.userOk) (hne : m.notEsmStable) (hinv : InvG cfg G s) (hg : GoodGaps G) :
+    (hm : m.userOk) (hne : m.esmRegular) (hinv : InvG cfg G s) (hg : GoodGaps G) :
     ∃ G', InvG cfg G' (apply cfg s e m) ∧ GoodGaps G' ∧ (m.notSettle → G' = G) := by
   unfold apply
   cases h : step cfg s e m with
@@ -89,7 +91,7 @@ theorem apply_invG (cfg : Nat → Option Product) (hc : CfgOk cfg) (G : Gaps) (s
       | _ => exact absurd (by simp [Msg.notSettle]) hns
 
 /-- the ledger invariant holds after every history, relative to offsets that only settlements move -/
-theorem invG_always (cfg : Nat → Option Product) (hc : CfgOk cfg) (h : History) (hu : UsersOk h) (hne : NoEsmStable h)
+theorem invG_always (cfg : Nat → Option Product) (hc : CfgOk cfg) (h : History) (hu : UsersOk h) (hne : EsmRegular h)
     (G : Gaps) (s : State)
     (hinv : InvG cfg G s) (hg : GoodGaps G) :
     ∃ G', InvG cfg G' (runAll cfg s h) ∧ GoodGaps G' ∧ (NoSettle h → G' = G) := by
@@ -105,7 +107,7 @@ theorem invG_always (cfg : Nat → Option Product) (hc : CfgOk cfg) (h : History
 theorem goodGaps_zero : GoodGaps Gaps.zero := by simp [GoodGaps, Gaps.zero]
 
 /-- histories without auction settlement keep the invariant with all offsets zero -/
-theorem inv_always (cfg : Nat → Option Product) (hc : CfgOk cfg) (h : History) (hu : UsersOk h) (hne : NoEsmStable h)
+theorem inv_always (cfg : Nat → Option Product) (hc : CfgOk cfg) (h : History) (hu : UsersOk h) (hne : EsmRegular h)
     (hn : NoSettle h) :
     Inv cfg (runAll cfg State.init h) := by
   obtain ⟨G', h', _, e⟩ := invG_always cfg hc h hu hne Gaps.zero State.init ((invG_zero cfg _).mpr (init_inv cfg hc)) goodGaps_zero
@@ -113,7 +115,7 @@ theorem inv_always (cfg : Nat → Option Product) (hc : CfgOk cfg) (h : History)
 
 /-- **Custody**: after EVERY history (including liquidation seizures and auction settlements) the vault-module balance
 of every denom = collateral recorded on open + stable-mint vaults of that denom + coins sent there unsolicited. -/
-theorem custody_eq (cfg : Nat → Option Product) (hc : CfgOk cfg) (h : History) (hu : UsersOk h) (hne : NoEsmStable h) (d : Nat) :
+theorem custody_eq (cfg : Nat → Option Product) (hc : CfgOk cfg) (h : History) (hu : UsersOk h) (hne : EsmRegular h) (d : Nat) :
     let s := runAll cfg State.init h
     s.bal vm d = collRecorded cfg s d + s.unsolicited d := by
   obtain ⟨G', h', g, _⟩ := invG_always cfg hc h hu hne Gaps.zero State.init ((invG_zero cfg _).mpr (init_inv cfg hc)) goodGaps_zero
@@ -122,7 +124,7 @@ theorem custody_eq (cfg : Nat → Option Product) (hc : CfgOk cfg) (h : History)
   simpa using this
 
 /-- **Count**: after every history the published vault count equals the number of open vaults. -/
-theorem count_eq (cfg : Nat → Option Product) (hc : CfgOk cfg) (h : History) (hu : UsersOk h) (hne : NoEsmStable h) :
+theorem count_eq (cfg : Nat → Option Product) (hc : CfgOk cfg) (h : History) (hu : UsersOk h) (hne : EsmRegular h) :
     let s := runAll cfg State.init h
     s.length = s.vaults.length := by
   obtain ⟨G', h', g, _⟩ := invG_always cfg hc h hu hne Gaps.zero State.init ((invG_zero cfg _).mpr (init_inv cfg hc)) goodGaps_zero
@@ -132,7 +134,7 @@ theorem count_eq (cfg : Nat → Option Product) (hc : CfgOk cfg) (h : History) (
 
 /-- **Totals, collateral**: after every history the published collateral-locked total of every product equals the sum
 over open, stable-mint and awaiting-auction vaults. -/
-theorem totals_coll_eq (cfg : Nat → Option Product) (hc : CfgOk cfg) (h : History) (hu : UsersOk h) (hne : NoEsmStable h) (prod : Nat) :
+theorem totals_coll_eq (cfg : Nat → Option Product) (hc : CfgOk cfg) (h : History) (hu : UsersOk h) (hne : EsmRegular h) (prod : Nat) :
     let s := runAll cfg State.init h
     s.coll prod = collOfProduct s prod := by
   obtain ⟨G', h', g, _⟩ := invG_always cfg hc h hu hne Gaps.zero State.init ((invG_zero cfg _).mpr (init_inv cfg hc)) goodGaps_zero
@@ -142,7 +144,7 @@ theorem totals_coll_eq (cfg : Nat → Option Product) (hc : CfgOk cfg) (h : Hist
 
 /-- **Totals, minted**: after every history the published tokens-minted total is AT MOST the recorded principal
 (open + stable-mint + awaiting auction); it is EQUAL in histories without auction settlement (`totals_eq`). -/
-theorem totals_minted_le (cfg : Nat → Option Product) (hc : CfgOk cfg) (h : History) (hu : UsersOk h) (hne : NoEsmStable h) (prod : Nat) :
+theorem totals_minted_le (cfg : Nat → Option Product) (hc : CfgOk cfg) (h : History) (hu : UsersOk h) (hne : EsmRegular h) (prod : Nat) :
     let s := runAll cfg State.init h
     s.minted prod ≤ mintedOfProduct s prod := by
   obtain ⟨G', h', g, _⟩ := invG_always cfg hc h hu hne Gaps.zero State.init ((invG_zero cfg _).mpr (init_inv cfg hc)) goodGaps_zero
@@ -153,7 +155,7 @@ theorem totals_minted_le (cfg : Nat → Option Product) (hc : CfgOk cfg) (h : Hi
 
 /-- **Totals** (partial: histories without auction settlement — see `totals_after_settlement`): per product, published
 collateral-locked / tokens-minted = sums over open vaults, stable-mint vaults and vaults awaiting auction settlement. -/
-theorem totals_eq (cfg : Nat → Option Product) (hc : CfgOk cfg) (h : History) (hu : UsersOk h) (hne : NoEsmStable h) (hn : NoSettle h)
+theorem totals_eq (cfg : Nat → Option Product) (hc : CfgOk cfg) (h : History) (hu : UsersOk h) (hne : EsmRegular h) (hn : NoSettle h)
     (prod : Nat) :
     let s := runAll cfg State.init h
     s.coll prod = collOfProduct s prod ∧ s.minted prod = mintedOfProduct s prod :=
@@ -209,6 +211,18 @@ theorem custody_after_esm_stable (cfg : Nat → Option Product) (s s' : State) (
   · have := (hinv'.2.2.2.1 p.id).2
     simp only [Gaps.afterEsmStable, Gaps.zero, if_true] at this
     omega
+
+/-- **Wind-down of a first-generation auction that collected less than the principal** (x/auction dutch.go:538-570 under
+emergency shutdown): the collected amount is burnt, the unsold collateral returns to vault custody and the owner gets a
+vault with it and the principal still owed. From a state satisfying the invariant the step keeps custody, count, both
+totals and the supply equation exactly (same offsets); the only premise is that a NEWLY created vault respects the debt
+floor (a top-up of the owner's existing vault always does) — the code does not check it. -/
+theorem wind_down_return_keeps_ledger (cfg : Nat → Option Product) (s s' : State) (p : Product) (e : Env) (vaultId owner : Nat)
+    (cur infl : Int) (hp : cfg p.id = some p) (hinv : Inv cfg s)
+    (hfloor : ∀ l ∈ s.locked, l.vaultId = vaultId →
+      (s.vaults.find? (fun v => v.owner = owner ∧ v.product = p.id)) = none → p.debtFloor ≤ l.amountOut - infl)
+    (h : esmReturn1 s p e vaultId owner cur infl = some s') : Inv cfg s' :=
+  (invG_zero cfg s').mp (esmReturn1_inv cfg Gaps.zero s s' p e vaultId owner cur infl hp ((invG_zero cfg s).mpr hinv) hfloor h)
 
 /-! ### Non-vacuity: a concrete configuration and history that satisfies the hypotheses and exercises the clauses -/
 def demoProduct : Product :=
@@ -272,10 +286,18 @@ theorem esm_vault_example :
                         (esmEnv, .esmBurn 10 1 3 500000)]
     let s := runAll demoCfg State.init h
     s.vaults = [] ∧ s.length = 0 ∧ s.bal vm 1 = 0 ∧ s.bal em 1 = 3000000 ∧ s.coll 1 = 0 ∧ s.minted 1 = 0 ∧
-    s.redeem 1 3 = 1500000 ∧ s.supply 3 = 1500000 ∧ s.extSupply 3 = 1500000 ∧ NoEsmStable h ∧ NoSettle h := by
+    s.redeem 1 3 = 1500000 ∧ s.supply 3 = 1500000 ∧ s.extSupply 3 = 1500000 ∧ EsmRegular h ∧ NoSettle h := by
   refine ⟨by decide, by decide, by decide, by decide, by decide, by decide, by decide, by decide, by decide, ?_, ?_⟩ <;>
   · intro em h
     simp only [List.mem_cons, List.not_mem_nil, or_false] at h
-    rcases h with rfl | rfl | rfl | rfl <;> simp [Msg.notEsmStable, Msg.notSettle]
+    rcases h with rfl | rfl | rfl | rfl <;> simp [Msg.esmRegular, Msg.notSettle]
+
+/-- the demo vault (3 001 000 collateral, 2 000 000 principal) is seized, 1 200 000 is collected for 1 801 000 of the
+collateral, the auction runs out under shutdown: the owner gets vault 2 with 1 200 000 collateral and 800 000 principal -/
+theorem wind_down_return_example :
+    let s := runAll demoCfg State.init (demoHistory ++ [({ demoEnv with esm := true }, .esmReturn1 1 10 1200000 1200000)])
+    s.locked = [] ∧ s.vaults.map (fun v => (v.id, v.owner, v.amountIn, v.amountOut)) = [(2, 10, 1200000, 800000)] ∧ s.length = 1 ∧
+    s.coll 1 = 1200000 ∧ s.minted 1 = 800000 ∧ s.bal vm 1 = 1200007 ∧ s.supply 3 = 800000 := by
+  decide
 
 end Comdex.C01
